@@ -400,7 +400,9 @@ def jobs_for(prop, tier):
     if prop == 'C05':
         return jobs_c05(tier) + [j for j in jobs_option_below(tier) if j[1][3] in ('num', 'localindex')]
     if prop == 'C09':
-        return jobs_c09(tier) + [j for j in jobs_option_below(tier) if j[1][3] in ('rpad', 'rpad_and_clip')]
+        return jobs_c09(tier) + [j for j in jobs_option_below(tier) if j[1][3] in ('rpad', 'rpad_and_clip')] + jobs_simplify(tier)
+    if prop == 'C11':
+        return jobs_simplify(tier)
     if prop == 'C07':
         return [j for j in jobs_option_below(tier) if j[1][3] == 'combinations']
     return {'C01': jobs_c01, 'C03': jobs_c03, 'C04': jobs_c04, 'C06': jobs_c06, 'C05': jobs_c05, 'C09': jobs_c09}.get(prop, lambda t: [])(tier)
@@ -1143,3 +1145,124 @@ def h_sort_local(lens, arg):
 def jobs_c06(tier):
     shapes = [(2,), (0, 3), (2, 0, 1)] if tier == 'quick' else [l for n in (1, 2, 3) for l in itertools.product(range(4), repeat=n)]
     return [(h_sort_local, (l, a), 600) for l in shapes for a in (False, True)]
+
+
+# ------------------------------------------------------------------------------------------------ C09 / C11: simplify_optiontype (option of option, index of index)
+INDEXED = {  # name -> (mangled class, element bits, mangled T, is option)
+    'IndexedArray32': ('N7awkward14IndexedArrayOfIiLb0EEE', 32, 'i', False), 'IndexedArrayU32': ('N7awkward14IndexedArrayOfIjLb0EEE', 32, 'j', False),
+    'IndexedArray64': ('N7awkward14IndexedArrayOfIlLb0EEE', 64, 'l', False),
+    'IndexedOptionArray32': ('N7awkward14IndexedArrayOfIiLb1EEE', 32, 'i', True), 'IndexedOptionArray64': ('N7awkward14IndexedArrayOfIlLb1EEE', 64, 'l', True),
+}
+
+
+def build_indexed(nc, cls, pattern, content_ptr, content_len, name):
+    """IndexedArray / IndexedOptionArray of any index width over the given content; pattern[i] True = missing (option classes only)"""
+    mangled, bits, T, option = INDEXED[cls]
+    n = len(pattern)
+    fo, sz, al, fields = nc.layout_of('IA', '_ZNK7awkward14IndexedArrayOfI%sLb%dEE6lengthEv' % (T, 1 if option else 0))
+    data = nc.m.array(name + '_index', ('i', bits), n, const=True)
+    a0 = z3.Array(name + '_index', z3.BitVecSort(64), z3.BitVecSort(bits))
+    raw = [z3.Select(a0, BV(i)) for i in range(n)]
+    idx = []
+    for i, miss in enumerate(pattern):
+        v = z3.ZeroExt(64 - bits, raw[i]) if T == 'j' else (z3.SignExt(64 - bits, raw[i]) if bits < 64 else raw[i])
+        if miss and not option:
+            raise Unsupported('a non-option IndexedArray has no missing entries')
+        nc.m.assume(v < 0 if miss else z3.And(v >= 0, v < content_len))
+        idx.append(v)
+    cells = nc.content_header(name, nc.vptr_of(mangled, 'IA'))
+    nc.index_cells(cells, fo[1], data, BV(0), BV(n), mangled_T=T)
+    cells.update({fo[2]: (content_ptr, 8), fo[2] + 8: (NULL, 8)})
+    return nc.m.record(name, cells, const=True), idx
+
+
+for _k, (_m, _b, _t, _o) in list(INDEXED.items()):
+    nodeh.CLASSES.setdefault(_m, ('IA', '_ZNK7awkward14IndexedArrayOfI%sLb%dEE6lengthEv' % (_t, 1 if _o else 0), 'option' if _o else 'indexed'))
+
+
+@guard
+def h_simplify_option(outer_cls, outer_pat, inner_cls, inner_pat):
+    """simplify_optiontype of an indexed / option node whose content is itself an indexed / option node: the two levels collapse into one whose
+    value is unchanged - entry i is None iff the outer entry is missing or the inner entry it points to is missing, else the same atom - and the
+    result is option-type whenever either level was (a non-option result never carries a negative index)"""
+    outer_pat, inner_pat = tuple(map(bool, outer_pat)), tuple(map(bool, inner_pat))
+    nc = NodeCtx(['IA', 'BMA', 'BIT', 'UMA', 'IDX', 'CNT', 'UTL', 'KD', 'IDS'], [], unwind=max(10, 2 * len(outer_pat) + len(inner_pat) + 8))
+    nin = len(inner_pat)
+    if inner_cls in INDEXED:
+        inner, iidx = build_indexed(nc, inner_cls, inner_pat, nc.content0, nc.lencontent, 'inner')
+        inner_at = lambda j: (z3.BoolVal(inner_pat[j]), iidx[j])
+    elif inner_cls == 'ByteMaskedArray':
+        inner, mk = build_bytemasked(nc, inner_pat, True, name='inner')
+        inner_at = lambda j: (z3.BoolVal(inner_pat[j]), BV(j))
+    elif inner_cls == 'UnmaskedArray':
+        if any(inner_pat):
+            raise Unsupported('an UnmaskedArray has no missing entries')
+        inner, vals = build_unmasked(nc, nin, name='inner')
+        inner_at = lambda j: (z3.BoolVal(False), BV(j))
+    else:
+        raise Unsupported(inner_cls)
+    this, oidx = build_indexed(nc, outer_cls, outer_pat, inner, BV(nin), 'node')
+    mangled, bits, T, option = INDEXED[outer_cls]
+    nc.m.record('ret', {})
+    out = nc.m.call('_ZNK7awkward14IndexedArrayOfI%sLb%dEE19simplify_optiontypeEv' % (T, 1 if option else 0), [Ptr('ret', 0), this])
+    obls = [('simplify_optiontype does not raise', out.raised)]
+    want = []
+    for i, miss in enumerate(outer_pat):
+        if miss:
+            want.append(NONE)
+            continue
+        # the outer index is symbolic: the inner entry it selects is an ite over the inner positions
+        none, val = z3.BoolVal(False), BV(-9)
+        for j in reversed(range(nin)):
+            nj, vj = inner_at(j)
+            none = z3.If(oidx[i] == j, nj, none)
+            val = z3.If(oidx[i] == j, vj, val)
+        want.append(Elem(val, none))
+    for g, res in nodeh.decode_cases(nc, out.mem, nc.m.cell('ret', 0)):
+        if res is None:
+            obls.append(('a result is returned', z3.And(g, z3.Not(out.raised))))
+            continue
+        obls += [(nm, z3.And(g, c)) for nm, c in compare(value(res), want)]
+        if res['cls'] == 'indexed':
+            for i, t in enumerate(res.get('index', [])):
+                obls.append(('a non-option result has no negative index (entry %d)' % i, z3.And(g, t < 0)))
+
+    def replay(model, ent):
+        ev = lambda t: model.eval(t, model_completion=True).as_signed_long()
+        ov = [ev(x) for x in oidx]
+        lc = max(ev(nc.lencontent), nin, 1)
+        tok = {'IndexedArray32': 'indexed32', 'IndexedArrayU32': 'indexedU32', 'IndexedArray64': 'indexed64', 'IndexedOptionArray32': 'option32', 'IndexedOptionArray64': 'option64'}
+        if inner_cls in INDEXED:
+            iv = [ev(x) for x in iidx]
+            lc = max([lc] + [v + 1 for v in iv])
+            head = 'i64 %s %s %s ' % (fullnative.ints(range(lc)), tok[inner_cls], fullnative.ints(iv))
+            inner_val = [None if v < 0 else v for v in iv]
+        elif inner_cls == 'ByteMaskedArray':
+            mv = [ev(x) for x in mk]
+            head = 'i64 %s bytemask %s 1 ' % (fullnative.ints(range(lc)), fullnative.ints(mv))
+            inner_val = [None if p else j for j, p in enumerate(inner_pat)]
+        else:
+            head = 'i64 %s unmasked ' % fullnative.ints(range(nin))
+            inner_val = list(range(nin))
+        if lc > 200:
+            return False, 'content too long to replay', {}
+        exp = [None if v < 0 else inner_val[v] for v in ov]
+        prog = head + '%s %s simplify' % (tok[outer_cls], fullnative.ints(ov))
+        return akrun_check(prog, exp, '%s(index=%s) over %s %s: simplify_optiontype' % (outer_cls, ov, inner_cls, inner_val))
+    return mdischarge(nc.m, '%s[%s] over %s[%s]::simplify_optiontype' % (outer_cls, ''.join('N' if p else 'v' for p in outer_pat), inner_cls, ''.join('N' if p else 'v' for p in inner_pat)),
+                      obls, [], replay=replay, prefer=[nc.lencontent <= 8],
+                      extra=dict(bounds='outer %d / inner %d entries, missing patterns concrete (case split), index values symbolic' % (len(outer_pat), nin)))
+
+
+def jobs_simplify(tier):
+    js = []
+    outers = [('IndexedOptionArray64', (0, 1, 0)), ('IndexedArray64', (0, 0, 0)), ('IndexedOptionArray32', (0, 1)), ('IndexedArray32', (0, 0))]
+    inners = [('IndexedArray32', (0, 0)), ('IndexedArrayU32', (0, 0)), ('IndexedArray64', (0, 0)), ('IndexedOptionArray32', (0, 1)), ('IndexedOptionArray32', (1, 0, 0)),
+              ('IndexedOptionArray64', (1, 0)), ('ByteMaskedArray', (0, 1)), ('UnmaskedArray', (0, 0))]
+    if tier != 'quick':
+        outers += [('IndexedArrayU32', (0, 0, 0)), ('IndexedOptionArray64', (1, 1)), ('IndexedOptionArray64', (0, 0, 0, 0))]
+        inners += [('IndexedOptionArray64', (0, 0, 0)), ('ByteMaskedArray', (1, 1)), ('IndexedOptionArray32', (0, 0))]
+    for oc, op in outers:
+        for ic, ip in inners:
+            js.append((h_simplify_option, (oc, op, ic, ip), 600))
+    return js
